@@ -143,3 +143,106 @@ pub(crate) fn ref_decimal(v: u64, out: &mut [u8; 24]) -> usize {
     }
     n
 }
+
+/// Fixed-capacity expected-text builder for the formula/lettering oracles.
+pub(crate) struct TBuf {
+    pub b: [u8; 64],
+    pub n: usize,
+}
+
+impl TBuf {
+    pub(crate) fn new() -> Self {
+        TBuf { b: [0u8; 64], n: 0 }
+    }
+    pub(crate) fn ch(&mut self, c: u8) {
+        self.b[self.n] = c;
+        self.n += 1;
+    }
+    pub(crate) fn s(&mut self, t: &[u8]) {
+        let mut i = 0;
+        while i < t.len() {
+            self.ch(t[i]);
+            i += 1;
+        }
+    }
+    /// Column letters when the letter count `l` (1..=4) is known (shape): closed-form bijective base-26,
+    /// so every index written is concrete.
+    pub(crate) fn col(&mut self, col: u32, l: usize) {
+        let first = [0u32, 26, 702, 18278];
+        let x = col - first[l - 1];
+        match l {
+            1 => self.ch(b'A' + x as u8),
+            2 => {
+                self.ch(b'A' + (x / 26) as u8);
+                self.ch(b'A' + (x % 26) as u8);
+            }
+            3 => {
+                self.ch(b'A' + (x / 676) as u8);
+                self.ch(b'A' + ((x / 26) % 26) as u8);
+                self.ch(b'A' + (x % 26) as u8);
+            }
+            _ => {
+                self.ch(b'A' + (x / 17576) as u8);
+                self.ch(b'A' + ((x / 676) % 26) as u8);
+                self.ch(b'A' + ((x / 26) % 26) as u8);
+                self.ch(b'A' + (x % 26) as u8);
+            }
+        }
+    }
+    /// Decimal rendering of `v` with exactly `digits` digits (shape; caller assumes the range).
+    pub(crate) fn dec(&mut self, v: u64, digits: usize) {
+        let mut p = 1u64;
+        let mut i = 1;
+        while i < digits {
+            p *= 10;
+            i += 1;
+        }
+        i = 0;
+        while i < digits {
+            self.ch(b'0' + ((v / p) % 10) as u8);
+            p /= 10;
+            i += 1;
+        }
+    }
+    /// byte-wise equality with `got` (explicit loop: slice == is a memcmp the unwinder must cover anyway)
+    pub(crate) fn eq(&self, got: &[u8]) -> bool {
+        if got.len() != self.n {
+            return false;
+        }
+        let mut i = 0;
+        let mut ok = true;
+        while i < self.n {
+            if got[i] != self.b[i] {
+                ok = false;
+            }
+            i += 1;
+        }
+        ok
+    }
+}
+
+// ---- compositional models of utils::push_column (C14-K1 decides push_column == bijective base-26 for every
+// column of each letter count; the token-rendering harnesses use these models in its place via #[kani::stub],
+// because String::extend(chars().rev()) costs minutes and ~10 GB per call under CBMC).
+fn model_push_letters(buf: &mut String, l: &[u8]) {
+    let v = unsafe { buf.as_mut_vec() };
+    let mut i = 0;
+    while i < l.len() {
+        v.push(l[i]);
+        i += 1;
+    }
+}
+pub(crate) fn model_push_column_l1(col: u32, buf: &mut String) {
+    assert!(col < 26, "model_push_column_l1: column outside the 1-letter shape");
+    model_push_letters(buf, &[b'A' + col as u8]);
+}
+pub(crate) fn model_push_column_l2(col: u32, buf: &mut String) {
+    assert!(col >= 26 && col < 702, "model_push_column_l2: column outside the 2-letter shape");
+    let x = col - 26;
+    model_push_letters(buf, &[b'A' + (x / 26) as u8, b'A' + (x % 26) as u8]);
+}
+pub(crate) fn model_push_column_l3(col: u32, buf: &mut String) {
+    assert!(col >= 702 && col < 18278, "model_push_column_l3: column outside the 3-letter shape");
+    let x = col - 702;
+    model_push_letters(buf, &[b'A' + (x / 676) as u8, b'A' + ((x / 26) % 26) as u8, b'A' + (x % 26) as u8]);
+}
